@@ -336,7 +336,8 @@ def task_rr_bin(args):
 
 def _dispatch(t):
     from .. import deferred
-    return {'auth': task_auth, 'send': task_send, 'rrbin': task_rr_bin, 'deferred': deferred.task}[t[0]](t[1])
+    from .. import concurrent
+    return {'auth': task_auth, 'send': task_send, 'rrbin': task_rr_bin, 'deferred': deferred.task, 'threads': concurrent.task3}[t[0]](t[1])
 
 
 def run(tier, seed):
@@ -353,6 +354,9 @@ def run(tier, seed):
     # the worker thread of a send is held between its answer and its reactor.callFromThread: every window of events (vf/deferred.py)
     from .. import deferred
     tasks += [('deferred', a) for a in deferred.tasks(PROP, tier)]
+    # two sends served by two worker threads at once: every schedule with one preemption (vf/threads.py, vf/concurrent.py)
+    from .. import concurrent
+    tasks += [('threads', a) for a in concurrent.tasks(PROP, tier)]
     results = explore.pmap(_dispatch, tasks, chunk=1)
     explore.close_pool()
     total = 0
@@ -364,7 +368,9 @@ def run(tier, seed):
             col.add(k, det, det, task=t)
     n_new, n_known, summary = col.finish('c16-request')
     nrules = len(rules())
+    classes, interleavings = concurrent.coverage(classes)
     cov = {
+        'thread_interleavings': interleavings,
         'states': len(STATES), 'transitions': total, 'traces_validated_against_impl': total,
         'evaluations': total, 'distinct_nontrivial': len(classes),
         'samples': [{'state': report.pick(list(STATES), seed + i, 1)[0], 'rule': r.rule, 'method': report.pick(METHODS, seed + i, 1)[0],
@@ -389,6 +395,9 @@ def replay(path):
     d = json.load(open(path))
     w = d['witness'] or {}
     key = d['key']
+    if key.startswith('C16|threads|'):
+        from .. import concurrent
+        return concurrent.cli_replay(PROP, d)
     if key.startswith('C16|deferred|'):
         from .. import deferred
         runs = [(0, [(key if key.startswith(k + '|') else k, det) for k, det in report.fresh(deferred.replay, PROP, w)]) for _ in (0, 1)]
